@@ -52,11 +52,12 @@ bool tmcg_mpz_get_gcry_mpi
 bool tmcg_mpz_set_gcry_mpi
 	(const gcry_mpi_t in, mpz_ptr value)
 {
-	char *buf = new char[TMCG_MAX_VALUE_CHARS];
-	memset(buf, 0, TMCG_MAX_VALUE_CHARS);
+	// TMCG_MAX_KEYBITS / 4 hex digits, a leading "00" and the terminating NUL
+	char *buf = new char[TMCG_MAX_VALUE_CHARS + 4];
+	memset(buf, 0, TMCG_MAX_VALUE_CHARS + 4);
 	size_t buflen;
 	gcry_error_t ret = gcry_mpi_print(GCRYMPI_FMT_HEX, (unsigned char*)buf,
-		TMCG_MAX_VALUE_CHARS - 1, &buflen, in);
+		TMCG_MAX_VALUE_CHARS + 3, &buflen, in);
 	if (ret)
 	{
 		mpz_set_ui(value, 0L);
